@@ -67,26 +67,30 @@ def dir_jobs(ctx, first_id, workdir):
     for sub in [s for k in range(0, 4) for s in itertools.combinations(["stage", "task", "ctx"], k)]:
         for where in ("root", "sub", "sub-default"):
             for mode in (["stage"] if "stage" in sub else ["direct", "stage"]):
-                jid = first_id + len(jobs)
-                proj = os.path.join(workdir, "cli", str(jid), "proj")
-                pr = 'echo "%s:$(pwd)" >> "$PROJ/out"'
-                task = {"command": [pr % "cmd"], "before": [pr % "before"], "after": [pr % "after"], "condition": pr % "cond", "context": "cx"}
-                if "task" in sub:
-                    task["dir"] = "{{.PD}}/td"
-                cx = {"env": {"CX": "1"}}
-                if "ctx" in sub:
-                    cx["dir"] = proj + "/cd"
-                stage = {"task": "t"}
-                if "stage" in sub:
-                    stage["dir"] = proj + "/sd"
-                doc = {"contexts": {"cx": cx}, "tasks": {"t": task}, "pipelines": {"p": [stage]}}
-                files = {("taskctl.yaml" if where == "sub-default" else "cfg.json"): clilib.jcfg(doc), "td/x": "", "cd/x": "", "sd/x": "", "sub/x": ""}
-                cfgp = "cfg.json" if where == "root" else "../cfg.json"
-                # "sub-default": no -c; taskctl.yaml is discovered in the parent directory (JSON is YAML)
-                jobs.append({"id": jid, "files": files, "argv": ([] if where == "sub-default" else ["-c", cfgp]) + ["--raw", "--set", "PD=" + proj, "t" if mode == "direct" else "p"],
-                             "cwd": "" if where == "root" else "sub", "keep": ["out"], "kind": "dir", "sub": list(sub), "where": where, "mode": mode,
-                             "dirs": {"stage": proj + "/sd" if "stage" in sub else "", "task": proj + "/td" if "task" in sub else "",
-                                      "ctx": proj + "/cd" if "ctx" in sub else "", "start": proj if where == "root" else proj + "/sub"}})
+                # rel: the task's / stage's dir written as a RELATIVE path: it is relative to the directory taskctl was started in
+                # (also when the context has a dir of its own)
+                for rel in ((False, True) if ("task" in sub or "stage" in sub) else (False,)):
+                    jid = first_id + len(jobs)
+                    proj = os.path.join(workdir, "cli", str(jid), "proj")
+                    start = proj if where == "root" else proj + "/sub"
+                    pr = 'echo "%s:$(/bin/pwd)" >> "$PROJ/out"'        # the external pwd: the directory the command's processes really run in
+                    task = {"command": [pr % "cmd"], "before": [pr % "before"], "after": [pr % "after"], "condition": pr % "cond", "context": "cx"}
+                    if "task" in sub:
+                        task["dir"] = "{{.RelT}}" if rel else "{{.PD}}/td"
+                    cx = {"env": {"CX": "1"}}
+                    if "ctx" in sub:
+                        cx["dir"] = proj + "/cd"
+                    stage = {"task": "t"}
+                    if "stage" in sub:
+                        stage["dir"] = "sd" if rel else proj + "/sd"
+                    doc = {"contexts": {"cx": cx}, "tasks": {"t": task}, "pipelines": {"p": [stage]}}
+                    files = {("taskctl.yaml" if where == "sub-default" else "cfg.json"): clilib.jcfg(doc), "td/x": "", "cd/x": "", "sd/x": "", "sub/x": "", "sub/td/x": "", "sub/sd/x": ""}
+                    cfgp = "cfg.json" if where == "root" else "../cfg.json"
+                    # "sub-default": no -c; taskctl.yaml is discovered in the parent directory (JSON is YAML)
+                    jobs.append({"id": jid, "files": files, "argv": ([] if where == "sub-default" else ["-c", cfgp]) + ["--raw", "--set", "PD=" + proj, "--set", "RelT=td", "t" if mode == "direct" else "p"],
+                                 "cwd": "" if where == "root" else "sub", "keep": ["out"], "kind": "dir", "sub": list(sub) + (["relative"] if rel else []), "where": where, "mode": mode,
+                                 "dirs": {"stage": (start + "/sd" if rel else proj + "/sd") if "stage" in sub else "", "task": (start + "/td" if rel else proj + "/td") if "task" in sub else "",
+                                          "ctx": proj + "/cd" if "ctx" in sub else "", "start": start}})
     return jobs
 
 
@@ -172,7 +176,7 @@ def run(ctx):
     res = vlib.Result()
     res.rule = ("environment: every non-empty subset (63) of {parent, context env, env_file, task env, stage env, variation} defining X, with values "
                 "increasing and decreasing with precedence, run directly and as a stage, read by the command and (without the variation level) by the condition, a before hook and an after hook; plus a name only the parent defines and TASK_NAME.  "
-                "directory: every subset of {stage dir, task dir (templated), context dir} x invoked from the project root / a sub-directory x "
+                "directory: every subset of {stage dir, task dir (templated), context dir} (task / stage dir absolute and relative) x invoked from the project root / a sub-directory x "
                 "direct / stage; pwd of command, before, after and condition.  env_file texts: NAME=value lines with values over {a b = # space x :}, repeated names, "
                 "blank lines, lines without '=', names with a leading # or blank, LF / CRLF, unterminated last line.  distinct = distinct case; non-trivial = at least two levels define X "
                 "(env) or at least one dir level is set (dir).")
